@@ -401,18 +401,18 @@ Lemma flush_fails_later : forall ls (s : st), (exists e w, flush s = Err e w) ->
 Proof.
   assert (FW : forall (s : st) w, (exists e w0, flush s = Err e w0) -> exists e w0, flush (set_world T V W w s) = Err e w0).
   { intros [c h q cl cu d ln w0] w (e & w1 & E). unfold Lines.flush in *. cbn in *. destruct h; [discriminate|].
-    destruct q as [[[at_ cf] n]|]; [|discriminate]. destruct (commit_fails T V at_ cf cu); [|discriminate]. eauto. }
+    destruct q as [[[at_ cf] n]|]; [|discriminate]. destruct (commit_fails T V at_ cf cu); [|discriminate]. unfold raise_at. cbn. eauto. }
   assert (FC : forall (s : st) l, (exists e w0, flush s = Err e w0) -> exists e w0, flush (add_comment T V D W l s) = Err e w0).
   { intros [c h q cl cu d ln w0] l (e & w1 & E). unfold add_comment. destruct (l_comment T V D l); [|eauto].
     unfold Lines.flush in *. cbn in *. destruct h; [discriminate|].
-    destruct q as [[[at_ cf] n]|]; [|discriminate]. destruct (commit_fails T V at_ cf cu); [|discriminate]. eauto. }
+    destruct q as [[[at_ cf] n]|]; [|discriminate]. destruct (commit_fails T V at_ cf cu); [|discriminate]. unfold raise_at. cbn. eauto. }
   assert (FN : forall (s : st) l, (exists e w0, flush s = Err e w0) -> exists e w0, flush (next_line l s) = Err e w0).
   { intros [c h q cl cu d ln w0] l (e & w1 & E). unfold Lines.flush in *. cbn in *. destruct h; [discriminate|].
-    destruct q as [[[at_ cf] n]|]; [|discriminate]. destruct (commit_fails T V at_ cf cu); [|discriminate]. eauto. }
+    destruct q as [[[at_ cf] n]|]; [|discriminate]. destruct (commit_fails T V at_ cf cu); [|discriminate]. unfold raise_at. cbn. eauto. }
   assert (ST : forall l (s : st), (exists e w0, flush s = Err e w0) -> gl_line l ->
                match step_line l s with Ok s1 => exists e w0, flush s1 = Err e w0 | Err _ _ => True end).
   { intros l s Hf G. unfold Lines.step_line, is_empty_text. destruct (l_stmt T V D l) as [[ps act]|] eqn:Es.
-    - unfold Lines.do_stmt. cbn [s_pre s_act]. specialize (G _ eq_refl). cbn in G.
+    - unfold Lines.do_stmt. cbn [s_pre s_act]. specialize (G _ Es). cbn in G.
       assert (P : forall ps (s0 : st), (exists e w0, flush s0 = Err e w0) -> gl_pre ps ->
                    match Lines.bind W (run_pre ps s0) (do_act act) with Ok _ => False | Err _ _ => True end).
       { induction ps0 as [|p ps0 IH]; intros s0 (e & w0 & E0) G0.
@@ -449,11 +449,9 @@ Proof.
     destruct (step_line l0 s0) as [s1|] eqn:E1; cbn [Lines.bind]; [|reflexivity].
     pose proof (step_line_good T V D W read_dep emit _ _ _ G0 E1) as G1.
     rewrite (step_empty_line T V D W read_dep emit).
-    assert (FS : flush (next_line l0 s1) = match flush s1 with Ok f => Ok (next_line l0 f) | Err e w0 => Err e w0 end).
-    { unfold Lines.next_line. apply (flush_set_line T V W). }
-    rewrite FS. destruct (flush s1) as [f|e w0] eqn:Ef; cbn [Lines.bind].
-    + rewrite <- (flush_finish T V W s1 G1), Ef. cbn [Lines.bind]. apply finish_dsim.
-      destruct f. constructor; try apply psim_refl; try apply osdoc_refl; apply sdoc_refl.
+    unfold Lines.next_line. rewrite (flush_set_line T V W).
+    destruct (flush s1) as [f|e w0] eqn:Ef; cbn [Lines.bind].
+    + rewrite (finish_set_line T V W). rewrite <- (flush_finish T V W s1 G1), Ef. cbn [Lines.bind]. reflexivity.
     + unfold Lines.finish. rewrite Ef. reflexivity.
   - rewrite (run_from_split T V D W read_dep emit).
     destruct (run_upto p (init T V W w)) as [s0|] eqn:E0; cbn [Lines.bind]; [|reflexivity].
